@@ -166,15 +166,21 @@ def bottomUp (n : Nat) (ch : Adj) (root : Nat) : Option (List Nat) :=
 /-- members (below `n`) of a mask, ascending -/
 def members (n : Nat) (m : Nat) : List Nat := (List.range n).filter m.testBit
 
-/-- one iteration of `for x in self.bottom_up(self.root_tree):`; `none` = KeyError on `self.df[z]` -/
+/-- `if self.get_immediate_dominator(y) != x: self.df[x].add(y)` -/
+def dfAdd (idom : List (Option Nat)) (x : Nat) (a y : Nat) : Nat :=
+  if idom.getD y none != some x then a ||| bit y else a
+
+/-- upward rule for one child `z`: `for y in self.df[z]: …`; `none` = KeyError on `self.df[z]` -/
+def upStep (n : Nat) (idom : List (Option Nat)) (df : List (Option Nat)) (x : Nat) (acc : Option Nat) (z : Nat) : Option Nat :=
+  match acc, df.getD z none with
+  | some a, some dz => some ((members n dz).foldl (dfAdd idom x) a)
+  | _, _ => none
+
+/-- one iteration of `for x in self.bottom_up(self.root_tree):` -/
 def cytronNode (n : Nat) (succ : Adj) (idom : List (Option Nat)) (ch : Adj)
     (df : List (Option Nat)) (x : Nat) : Option (List (Option Nat)) :=
-  let loc := (row succ x).foldl (fun a y => if idom.getD y none != some x then a ||| bit y else a) 0
-  let up := (row ch x).foldl (fun (acc : Option Nat) z =>
-      match acc, df.getD z none with
-      | some a, some dz =>
-        some ((members n dz).foldl (fun a y => if idom.getD y none != some x then a ||| bit y else a) a)
-      | _, _ => none) (some loc)
+  let loc := (row succ x).foldl (dfAdd idom x) 0                 -- local rule
+  let up := (row ch x).foldl (upStep n idom df x) (some loc)      -- upward rule
   up.map fun m => df.set x (some m)
 
 def cytronLoop (n : Nat) (succ : Adj) (idom : List (Option Nat)) (ch : Adj) :
